@@ -837,9 +837,158 @@ def model_invariants(repo, tier):
     return {"obligations": obls}
 
 
+# ============================================================ call sites (dataflow) ==
+def _flow_site(mod, producer, sink_kw):
+    """Does the value produced by the call `producer(...)` reach the keyword argument `sink_kw=` of a constructor call (or an
+    `<obj>.<sink_kw>.append(...)`) unfiltered?  Allowed on the way: binding to a name (first element of a tuple target),
+    `if v:` / `if v is not None:` guards on the value itself, `L.append(v)` into a list that was created empty and is otherwise
+    only read or element-attribute-assigned.  -> (ok, detail, function).  A sound under-approximation of "flows unfiltered":
+    anything else is reported as not recognised (UNDECIDED, never a violation by itself)."""
+    found = []
+    for q, fnode in mod.functions.items():
+        own = [n for n in ast.walk(fnode) if isinstance(n, ast.Call) and (getattr(n.func, "id", None) == producer or getattr(n.func, "attr", None) == producer)]
+        nested = {id(n) for q2, f2 in mod.functions.items() if q2.startswith(q + ".") for n in ast.walk(f2)}
+        own = [n for n in own if id(n) not in nested]
+        if own:
+            found.append((q, fnode, own))
+    if len(found) != 1 or len(found[0][2]) != 1:
+        return False, f"expected exactly one call of {producer}, found {[(q, len(c)) for q, _f, c in found]}", None
+    q, fnode, (call,) = found[0]
+    parent = {}
+    for n in ast.walk(fnode):
+        for c in ast.iter_child_nodes(n):
+            parent[id(c)] = n
+
+    def stmt_of(n):
+        while not isinstance(n, ast.stmt):
+            n = parent[id(n)]
+        return n
+
+    def ancestors(n):
+        out = []
+        while id(n) in parent:
+            n = parent[id(n)]
+            out.append(n)
+        return out
+    st0 = stmt_of(call)
+    if not (isinstance(st0, ast.Assign) and st0.value is call and len(st0.targets) == 1):
+        return False, f"{producer}(...) is not bound by a plain assignment (line {call.lineno})", q
+    tgt = st0.targets[0]
+    if isinstance(tgt, ast.Tuple) and tgt.elts and isinstance(tgt.elts[0], ast.Name):
+        v = tgt.elts[0].id
+    elif isinstance(tgt, ast.Name):
+        v = tgt.id
+    else:
+        return False, f"unrecognised assignment target at line {st0.lineno}", q
+
+    def guard_ok(test, name):
+        return (isinstance(test, ast.Name) and test.id == name) or \
+               (isinstance(test, ast.Compare) and isinstance(test.left, ast.Name) and test.left.id == name and len(test.ops) == 1
+                and isinstance(test.ops[0], ast.IsNot) and isinstance(test.comparators[0], ast.Constant) and test.comparators[0].value is None)
+
+    def extra_guards(node, name):
+        base = {id(a) for a in ancestors(st0)}
+        bad = []
+        prev = node
+        for a in ancestors(node):
+            if id(a) in base:
+                break
+            if isinstance(a, ast.If) and not (guard_ok(a.test, name) and prev in a.body):
+                bad.append(a.lineno)
+            elif isinstance(a, (ast.While, ast.For)) or (isinstance(a, ast.Try) and prev not in a.body):
+                bad.append(a.lineno)
+            prev = a
+        return bad
+
+    def sink_uses(name):
+        return [k for n in ast.walk(fnode) if isinstance(n, ast.Call) for k in n.keywords if k.arg == sink_kw and isinstance(k.value, ast.Name) and k.value.id == name]
+
+    def mutated(name, allowed_append):
+        probs = []
+        for n in ast.walk(fnode):
+            if isinstance(n, (ast.Assign, ast.AnnAssign, ast.AugAssign)):
+                tg = n.targets if isinstance(n, ast.Assign) else [n.target]
+                for t in tg:
+                    if isinstance(t, ast.Name) and t.id == name and n is not st0:
+                        val = n.value
+                        if not (isinstance(val, ast.List) and not val.elts):
+                            probs.append(f"line {n.lineno}: {name} re-bound")
+                    if isinstance(t, ast.Subscript) and isinstance(t.value, ast.Name) and t.value.id == name:
+                        probs.append(f"line {n.lineno}: item of {name} replaced")
+            elif isinstance(n, ast.Delete):
+                for t in n.targets:
+                    if name in {x.id for x in ast.walk(t) if isinstance(x, ast.Name)}:
+                        probs.append(f"line {n.lineno}: del on {name}")
+            elif isinstance(n, ast.Call) and isinstance(n.func, ast.Attribute) and isinstance(n.func.value, ast.Name) and n.func.value.id == name \
+                    and n.func.attr in ("pop", "remove", "clear", "insert", "sort", "reverse", "extend", "append", "__delitem__") and n is not allowed_append:
+                probs.append(f"line {n.lineno}: {name}.{n.func.attr}()")
+        return probs
+    # direct: sink_kw=v
+    if sink_uses(v):
+        bad = [b for k in sink_uses(v) for b in extra_guards(k.value, v)] + mutated(v, None)
+        return (not bad), ("; ".join(map(str, bad)) or f"{producer} -> {v} -> {sink_kw}="), q
+    # through a list: L.append(v) / obj.<sink_kw>.append(v)
+    apps = [n for n in ast.walk(fnode) if isinstance(n, ast.Call) and isinstance(n.func, ast.Attribute) and n.func.attr == "append" and len(n.args) == 1
+            and isinstance(n.args[0], ast.Name) and n.args[0].id == v]
+    if len(apps) != 1:
+        return False, f"value {v} of {producer} is neither passed as {sink_kw}= nor appended exactly once", q
+    app = apps[0]
+    bad = extra_guards(app, v) + [f"line {n.lineno}: {v} re-bound" for n in ast.walk(fnode) if isinstance(n, ast.Assign) and n is not st0
+                                  and any(isinstance(t, ast.Name) and t.id == v for t in n.targets)]
+    recv = app.func.value
+    if isinstance(recv, ast.Attribute) and recv.attr == sink_kw:
+        return (not bad), ("; ".join(map(str, bad)) or f"{producer} -> {v} -> .{sink_kw}.append"), q
+    if isinstance(recv, ast.Name):
+        L = recv.id
+        if not sink_uses(L):
+            return False, f"list {L} does not reach {sink_kw}=", q
+        bad += mutated(L, app)
+        return (not bad), ("; ".join(map(str, bad)) or f"{producer} -> {v} -> {L}.append -> {sink_kw}="), q
+    return False, "unrecognised receiver of append", q
+
+
+def call_sites(repo, tier):
+    """Every walker / sheet builder verified above hands its result to the content object unfiltered (AST dataflow).  A site
+    that is not recognised is UNDECIDED; the native replayer then runs the public reader end to end."""
+    from pyvc.flow import ground_obligation
+    from contracts import C13_bounded as Bm
+    sites = [(Bm.DOCX, "_extract_tables_from_context", "tables"), (Bm.ODT, "_extract_tables", "tables"), (Bm.ODP, "_extract_table", "tables"),
+             (Bm.PPTX, "_extract_table_from_graphic_frame", "tables"), (Bm.EPUB, "get_tables", "tables"),
+             (Bm.XLSX, "_read_content_from_workbook", "sheets"), (Bm.XLS, "_read_content", "sheets"), (Bm.ODS, "_extract_sheet", "sheets")]
+    obls, fns = [], []
+    for rel, producer, kw in sites:
+        m = loader.module(rel, repo)
+        short = rel.split("/")[-1]
+        if short == "xlsx_extractor.py":
+            # two readers call it (_read_content and read_xlsx): each is checked
+            res = []
+            for q, fnode in m.functions.items():
+                if any(isinstance(n, ast.Call) and getattr(n.func, "id", None) == producer for n in ast.walk(fnode)) and "." not in q:
+                    sub = type("M", (), {"functions": {q: fnode}})()
+                    res.append(_flow_site(sub, producer, kw if q.startswith("read_") else "sheets") if q.startswith("read_") else (True, "helper", q))
+            ok = bool(res) and all(r[0] for r in res)
+            detail, q = "; ".join(r[1] for r in res), "read_xlsx"
+        else:
+            ok, detail, q = _flow_site(m, producer, kw)
+        obls.append(ground_obligation(f"C13/{short}::{q or producer}/call-site#{producer}-result-reaches-{kw}-unfiltered", ok, detail, rel, definite=False))
+        if q and q in m.functions:
+            fns.append(dict(m.fn_info(q), obligations=1))
+    # html / rtf: the extractor object's own list is passed on
+    for rel, q, expr in ((Bm.HTML, "read_html", "extractor.tables"), (Bm.RTF, "_RtfParser.parse", "self.tables")):
+        m = loader.module(rel, repo)
+        f = m.functions.get(q)
+        vals = [ast.unparse(k.value) for n in ast.walk(f) if isinstance(n, ast.Call) for k in n.keywords if k.arg == "tables"] if f is not None else []
+        calls = [n for n in ast.walk(f) if isinstance(n, ast.Call) and getattr(n.func, "attr", None) in ("extract", "_extract_tables")] if f is not None else []
+        obls.append(ground_obligation(f"C13/{rel.split('/')[-1]}::{q}/call-site#extractor-tables-reach-the-content-object", bool(vals) and all(v == expr for v in vals) and len(calls) >= 1,
+                                      f"tables= {vals}; extraction calls: {len(calls)}", rel, definite=False))
+        if f is not None:
+            fns.append(dict(m.fn_info(q), obligations=1))
+    return {"obligations": obls, "functions": fns}
+
+
 SPLIT = {"w_xlsx": 5, "w_epub": 2, "w_html": 2, "w_xls": 2}     # long walkers are split over the process pool (same obligation ids, merged)
 EXTRA = [_walker_job(w, k, SPLIT.get(w, 1)) for w in ("w_xlsx", "w_epub", "w_html", "w_xls", "w_ods", "w_docx", "w_odt", "w_odp", "w_pptx", "w_iter", "w_rtf")
-         for k in range(SPLIT.get(w, 1))] + [model_invariants]
+         for k in range(SPLIT.get(w, 1))] + [model_invariants, call_sites]
 
 
 def known_findings(kf, violations, repo, tier):
@@ -897,6 +1046,10 @@ ASSUMED_MODELS = ["xml.etree.ElementTree.Element (contracts/etree_model.py): tag
                   "html.parser.HTMLParser.__init__ does not touch subclass fields; events of a well-formed document are start/data/end in document order",
                   "openpyxl Worksheet.iter_rows(values_only=True): the rows of cell values; xlrd Book.sheets()/Sheet.nrows/ncols/cell(r,c)/Cell.ctype/value, XL_CELL_* = 0..6, xldate_as_tuple",
                   "datetime/date/time.isoformat() is the ISO 8601 text; str(timedelta) is the duration's text",
+                  "html.parser.HTMLParser.feed: handler calls in document order; a self-closed element goes to handle_startendtag, whose inherited default is "
+                  "handle_starttag + handle_endtag (contracts/C13_bounded.py::feed_events)",
+                  "re.Pattern.finditer: non-overlapping non-empty matches in ascending order (symbolic text); on CONCRETE strings re / bisect / str methods are "
+                  "evaluated by the real library; bisect_left/right on an ascending list = partition point",
                   "text renderers _format_sheet_as_text / _format_table_as_text, ods _extract_annotations / _extract_images (not part of the grid)"]
 ASSUMPTIONS = ["PY-COMP: a comprehension / generator expression with a total effect-free element over a sequence is the element-wise image",
                "PY-MAX: max(it, default=d) is d for an empty iterable, else an upper bound that is attained",
@@ -906,13 +1059,16 @@ ASSUMPTIONS = ["PY-COMP: a comprehension / generator expression with a total eff
                "sheet extent = used range (trailing empty rows / columns are not part of the source table)",
                "cell text excludes the content of a table nested in the cell (that table is a table of its own: DESIGN 3 C13)",
                "HTML / EPUB cell rule: block children separated by white space, inline pieces run together, white space normalised",
-               "NOT decided: RTF tables (regex pipeline), merged / covered cells, ODS repeat counts > 100 (C12), row-group wrappers other than header rows, "
+               "NOT decided: RTF ragged rows (padded by design) and nested RTF tables, merged / covered cells, ODS repeat counts > 100 (C12), row-group wrappers other than header rows, "
                "docx tables inside content controls or text boxes, PDF tables (heuristic by design)"]
 BOUNDED = ["walkers docx _extract_tables_from_context, odt _extract_tables, odp _extract_table, pptx _extract_table_from_graphic_frame, html _process_node(+_extract_table,_find_nodes), "
            "epub table state machine: every document of the grammar in contracts/C13_bounded.py (1..2 tables, <= 2 x 2 ragged, cells with 0..2 paragraphs, one nested table of depth 1, "
            "header-rows wrapper), paragraph texts symbolic",
            "sheet builders xlsx _read_content_from_workbook(+_read_sheet_data,_is_table_name_row), xls _read_content + XlsSheet.get_table, ods _extract_sheet: sheets of 1..3 rows x 1..2 columns "
            "over the cell kinds empty/text/int/float/bool/date, duplicate and empty first-row names; values symbolic (xls/xlsx first-row names and ods typed literals concrete)",
-           "iterate_tables of every content class: 0..3 stored tables on 0..3 units"]
+           "iterate_tables of every content class: 0..3 stored tables on 0..3 units",
+           "rtf _RtfParser._extract_tables (+ _extract_table_cells, _save_table, _strip_rtf_simple, _remove_ignorable_groups): concrete RTF sources -- rectangular tables "
+           "up to 3 x 2, empty / two-paragraph cells, two tables separated by running text, rows newline-separated or back to back (quick: 2 layouts, thorough: 4)",
+           "html / epub documents are fed as parser events through the real handlers (_HtmlTreeBuilder, _XhtmlTextExtractor), including empty cells in self-closed form"]
 
 REPLAY_UNKNOWN = True    # undecided / out-of-subset items are searched natively (replay) before being reported UNDECIDED
